@@ -62,6 +62,20 @@ def monitor_c15(sc):
         for src, n in c.items():
             if n > lim + 1:
                 hits.append(dict(what="more than limit+1 messages buffered for one sender and topic", topic=p["topic"], src=src, n=n))
+    # expiry: a collection at epoch g removes every topic whose last stored message is older than g - E, and later stores only
+    # refresh a topic; so no buffered topic may be older than that at the last collection (arrival epochs recomputed from the
+    # operation list: message data are unique per scenario)
+    arrived, ep = {}, 0
+    for o in sc["ops"]:
+        if o["op"] == "tick":
+            ep += 1
+        elif o["op"] == "recv" and o.get("msg"):
+            arrived[o["msg"]["data"]] = ep
+    for p in sc["fin_pending"]:
+        ages = [arrived[m["data"]] for m in p["msgs"] if m["data"] in arrived]
+        if ages and sc.get("fin_lastgc", 0) - max(ages) > E:
+            hits.append(dict(what="a topic that had expired at the last collection is still buffered (and still counted against its senders)",
+                             topic=p["topic"], last_stored_epoch=max(ages), last_collection_epoch=sc["fin_lastgc"], expire_epochs=E))
     # counted on the buffers themselves, not on the bookkeeping that is meant to bound them
     per_src = collections.Counter()
     for p in sc["fin_pending"]:
